@@ -28,8 +28,8 @@ META = {
                   'model-checked exhaustively for small constants together with four wrong designs that must fail. '
                   'Every generated or random history is executed on real Response objects in real App calls and TLC '
                   'decides, per event, whether what was read back / handed to the server / decoded equals the '
-                  'specification; failing traces are re-judged under named deviations so that a finding has the '
-                  'narrowest signature.',
+                  'specification (every rejection is a violation; a sample is re-judged under five named, since '
+                  'repaired, deviations only to add a diagnostic hint).',
     'level_note': 'Bounded: exhaustive histories <= 3 calls (thorough: 4) over {x-a, etag, set-cookie} x 3 casings x '
                   '2 values, 4 typed settings, 2 links, 3 bulk lists, 2 cookie names x 3 attribute sets, 2 unset forms; '
                   'generated histories of 7 calls over larger pools (30 typed settings, 8 cookie attribute sets), random '
@@ -37,7 +37,10 @@ META = {
                   'pool x 9 helpers. Codec fidelity (percent-encoding, RFC 6266/8187/8288, HTTP-date, cookie octets) is '
                   'not re-specified in TLA+: it is the law Decode(emitted) = original with the trusted decoders named in '
                   'trusted_base. Failed bulk sets and rejected cookie arguments are not driven (outcome not stated by '
-                  'the property). Order among Set-Cookie lines and Content-Length are D-clauses.',
+                  'the property). Order among Set-Cookie lines and Content-Length are D-clauses. unset_cookie on a name '
+                  'already written in the response: value empty, expired, SameSite and any Domain/Path the call gave are '
+                  'P-clauses; attributes it did not give may be absent or inherited from the earlier write (D:unset-inherit) '
+                  '- unset_cookie cannot be asked for Secure/HttpOnly and falcon\'s own suite pins their inheritance.',
 }
 
 from engine import drivers
@@ -630,8 +633,20 @@ def compare_behaviour(ctx, b, trace, case):
             return 'P:cookie-lines', '%d lines for cookie %r' % (len(lns), name)
         ln = lns[0]
         if c['unset']:
-            got = {k: ln[k] for k in ('domain', 'path', 'samesite')}
-            want = {k: c[k] for k in ('domain', 'path', 'samesite')}       # expiry: judged by TLC (needs the clock)
+            # stated: SameSite, and Domain/Path when the call gave them (j['w'] = what was asked); what it did not
+            # give may be absent or inherited from an earlier write (c = TLC's model of the code).  Expiry and the
+            # empty value are judged by TLC (they need the clock / the line).
+            w = j['w']
+            got = {'samesite': ln['samesite']}
+            want = {'samesite': w['samesite']}
+            for k in ('domain', 'path'):
+                if w[k]:
+                    got[k], want[k] = ln[k], w[k]
+                elif ln[k] not in ('', c[k]):
+                    ctx.detail('D:unset-inherit', case, 'unset cookie %r: %s=%r neither absent nor inherited (%r)' % (name, k, ln[k], c[k]))
+            for k in ('secure', 'httponly', 'partitioned'):
+                if ln[k] not in (False, c[k]):
+                    ctx.detail('D:unset-inherit', case, 'unset cookie %r: %s neither absent nor inherited' % (name, k))
         else:
             got = {k: ln[k] for k in ('domain', 'path', 'secure', 'httponly', 'samesite', 'partitioned')}
             got.update(expires=ln['exp'] if ln['hasexp'] else -1, max_age=ln['maxage'] if ln['hasmaxage'] else None,
@@ -649,8 +664,9 @@ def compare_behaviour(ctx, b, trace, case):
 # judging
 # =================================================================================================
 
+# named deviations the judge can be given (diagnosis only): the five defects found by this check and repaired since
 DEVIATIONS = {
-    'M': 'a cookie name written twice in one response keeps the attributes of the earlier write',
+    'M': 'set_cookie on a name written before in the response keeps the attributes of the earlier write',
     'Z': 'set_cookie(max_age=0) emits no Max-Age attribute',
     'E': 'a cookie with the empty value is echoed back as \'""\' by the request API',
     'Q': 'double quote / backslash are copied unescaped into filename="..." / title="..."',
@@ -673,8 +689,8 @@ def ascii_safe(x):
 
 
 def judge_all(ctx, items, timeout=1500):
-    """items: list of (trace, case).  Judges with the property; re-judges rejected traces under every set of
-    named deviations.  Reports violations (with the deviation as signature when one explains the trace)."""
+    """items: list of (trace, case).  TLC judges every trace against the property; every rejection is a violation.
+    A sample of the rejected traces is re-judged under the named deviations to add a diagnostic hint."""
     traces = [ascii_safe(t) for t, _ in items]
     verdicts = ctx.judge('RespHeadersTrace', traces, 'RespHeadersTrace.cfg', timeout=timeout, workers=ctx.pick(8, 16))
     bad = []
@@ -691,47 +707,32 @@ def judge_all(ctx, items, timeout=1500):
             safe.append(traces[i])
             rejected.add(i)
     ctx.progress('judge: %d traces, %d rejected under the property' % (len(traces), len(bad)))
-    # which deviations explain a rejected trace: first every single one, then (for the rest) every set
+    # diagnosis only (no suppression): which named deviation(s) would explain a rejected trace.  All five were
+    # defects of falcon that have been repaired; a recurrence is a plain violation.
     explained = {}
-    todo = list(range(len(bad)))
+    todo = list(range(min(len(bad), 300)))
     for cfg in ('RespHeadersTraceK1.cfg', 'RespHeadersTraceK.cfg'):
-        for off in range(0, len(todo), 2000):
-            part = todo[off:off + 2000]
-            path = os.path.join(ctx.scratch, 'rejected-%d.json' % off)
-            with open(path, 'w') as f:
-                json.dump([safe[i] for i in part], f)
-            r = ctx.tlc('RespHeadersTrace', cfg, env={'TRACE_FILE': path}, workers=ctx.pick(8, 16), timeout=timeout, count=False)
-            for tag, fields in r.tuples:
-                if tag == 'VERDICT' and len(fields) >= 4 and (fields[1] == 'ok' or fields[1].startswith('D:')):
-                    i, k = part[fields[0] - 1], fields[3]
-                    cur = explained.get(i)
-                    if cur is None or (len(k), k) < (len(cur), cur):
-                        explained[i] = k
-            os.unlink(path)
-        todo = [i for i in todo if i not in explained]
         if not todo:
             break
+        path = os.path.join(ctx.scratch, 'rejected.json')
+        with open(path, 'w') as f:
+            json.dump([safe[i] for i in todo], f)
+        r = ctx.tlc('RespHeadersTrace', cfg, env={'TRACE_FILE': path}, workers=8, timeout=timeout, count=False)
+        for tag, fields in r.tuples:
+            if tag == 'VERDICT' and len(fields) >= 4 and (fields[1] == 'ok' or fields[1].startswith('D:')):
+                i, k = todo[fields[0] - 1], fields[3]
+                cur = explained.get(i)
+                if cur is None or (len(k), k) < (len(cur), cur):
+                    explained[i] = k
+        os.unlink(path)
+        todo = [i for i in todo if i not in explained]
     nfail = 0
-    counts = {}
-    for k in explained.values():
-        counts[k] = counts.get(k, 0) + 1
-    if bad:
-        ctx.progress('rejected traces by explaining deviation set: %s; unexplained: %d'
-                     % (dict(sorted(counts.items())), len(bad) - len(explained)))
-        ctx.extra['rejected_by_deviation_set'] = counts
     for i, (trace, case, v) in enumerate(bad):
         clause = v.split('|')[0]
         k = explained.get(i)
-        if not k:
-            ctx.violation(clause, {'case': case, 'trace': trace}, 'trace rejected by RespHeadersTrace: %s' % v)
-            nfail += 1
-        else:
-            for d in k:
-                if ctx.violation(clause, {'case': case, 'trace': trace, 'deviations': k},
-                                 '%s (judge: %s; the trace is accepted when the specification is given exactly the '
-                                 'deviation(s) %s)' % (DEVIATIONS[d], v, '+'.join(k)),
-                                 signature={'deviation': d}):
-                    nfail += 1
+        hint = '' if not k else ' [would be accepted with the repaired defect(s) back: %s]' % '; '.join(DEVIATIONS[d] for d in k)
+        ctx.violation(clause, {'case': case, 'trace': trace}, 'trace rejected by RespHeadersTrace: %s%s' % (v, hint))
+        nfail += 1
     return rejected, nfail
 
 
@@ -951,6 +952,9 @@ def run(ctx):
                        'a value that already looks percent-escaped is passed through by the URI helpers (documented '
                        'heuristic of encode_check_escaped): the law is not stated for such originals, link members are '
                        'not generated that way', 'raw cookie names are disjoint from set_cookie names',
+                       'unset_cookie on a name already written in the response may inherit the attributes the call did not '
+                       'give (interpretation fixed with the coordinator: not decidable from the statement, pinned by '
+                       'tests/test_cookies.py::test_response_complex_case)',
                        'expiry instants lie before 2038 (TLC integers)']
 
     # ---- leg M: the design, and the wrong designs ------------------------------------------------
